@@ -38,7 +38,14 @@ func (db *DatabaseContext) DeleteRole(ctx context.Context, name string, purge bo
 		return err
 	}
 
-	return authenticator.DeleteRole(role, purge, seq)
+	err = authenticator.DeleteRole(role, purge, seq)
+	// For timeout errors the write may or may not have succeeded, so the sequence cannot be released as unused
+	if err != nil && !base.IsTimeoutError(err) {
+		if releaseErr := db.sequences.releaseSequence(ctx, seq); releaseErr != nil {
+			base.InfofCtx(ctx, base.KeyAuth, "Error releasing unused sequence %d after failed delete of role %s: %v", seq, base.UD(name), releaseErr)
+		}
+	}
+	return err
 }
 
 // UpdatePrincipal updates or creates a principal from a PrincipalConfig structure.
